@@ -51,7 +51,7 @@ fn show(s: &Seen) -> String {
     }
 }
 
-fn basic_variant(t: &BasicErrorResponseType) -> u32 {
+pub(crate) fn basic_variant(t: &BasicErrorResponseType) -> u32 {
     match t {
         BasicErrorResponseType::InvalidClient => 100,
         BasicErrorResponseType::InvalidGrant => 101,
@@ -62,7 +62,7 @@ fn basic_variant(t: &BasicErrorResponseType) -> u32 {
         BasicErrorResponseType::Extension(_) => 200,
     }
 }
-fn device_variant(t: &DeviceCodeErrorResponseType) -> u32 {
+pub(crate) fn device_variant(t: &DeviceCodeErrorResponseType) -> u32 {
     match t {
         DeviceCodeErrorResponseType::AuthorizationPending => 0,
         DeviceCodeErrorResponseType::SlowDown => 1,
@@ -71,7 +71,7 @@ fn device_variant(t: &DeviceCodeErrorResponseType) -> u32 {
         DeviceCodeErrorResponseType::Basic(b) => basic_variant(b),
     }
 }
-fn rev_variant(t: &RevocationErrorResponseType) -> u32 {
+pub(crate) fn rev_variant(t: &RevocationErrorResponseType) -> u32 {
     match t {
         RevocationErrorResponseType::UnsupportedTokenType => 0,
         RevocationErrorResponseType::Basic(b) => basic_variant(b),
@@ -174,7 +174,7 @@ fn kinds_of(family: u8) -> &'static [u8] {
     }
 }
 
-fn base_case(r: &mut Rng) -> ErrCase {
+pub(crate) fn base_case(r: &mut Rng) -> ErrCase {
     let family = r.below(3) as u8;
     ErrCase {
         family,
